@@ -398,6 +398,31 @@ func randSpec(r *common.Rand) *spec {
 		sp.FailAt = r.Intn(4)
 		sp.FaultErr = pick(r, "", "", "notfound", "dupname", "closed", "unsupported")
 	}
+	// file store: Pack's own blobs as named files (title annotation on the config / the manifest);
+	// the name is free, or that of a backed layer (same content: found by digest; other content:
+	// the store refuses the push with ErrDuplicateName)
+	if sp.Target == "file" && r.Chance(1, 3) {
+		name := fmt.Sprintf("own-%d.json", r.Intn(3))
+		for _, l := range sp.Layers {
+			if t := l.Annotations[ocispec.AnnotationTitle]; t != "" && r.Chance(1, 2) {
+				name = t
+			}
+		}
+		if r.Chance(3, 4) {
+			if sp.ConfigAnn == nil {
+				sp.ConfigAnn = map[string]string{}
+			}
+			sp.ConfigAnn[ocispec.AnnotationTitle] = name
+			run.Count("file_titled_config")
+		}
+		if r.Chance(1, 3) {
+			if sp.Ann == nil {
+				sp.Ann = map[string]string{}
+			}
+			sp.Ann[ocispec.AnnotationTitle] = pick(r, name, "manifest.json")
+			run.Count("file_titled_manifest")
+		}
+	}
 	// strings that are not valid UTF-8 (Go strings are byte strings)
 	if r.Chance(1, 10) {
 		bad := func() string { return pick(r, "\xff", "\xfe", "\xc0\x80", "\xed\xa0\x80", "\xe2\x98", "\x80") }
@@ -444,6 +469,38 @@ func enumNonUTF8() {
 				}
 				packCase(sp)
 				run.Count("non_utf8_input")
+			}
+		}
+	}
+}
+
+// enumFileTitles: Pack's own blobs as named files of a file store, deterministically.
+func enumFileTitles() {
+	empty := descOf("application/octet-stream", []byte("{}"))
+	empty.Annotations = map[string]string{ocispec.AnnotationTitle: "empty.json"}
+	other := descOf("application/octet-stream", []byte("other content"))
+	other.Annotations = map[string]string{ocispec.AnnotationTitle: "other.bin"}
+	backing := map[string]string{string(empty.Digest): "{}", string(other.Digest): "other content"}
+	for _, fn := range []string{"v10", "v11", "rc2", "art"} {
+		for _, ex := range []bool{false, true} {
+			for _, ct := range []string{"", "free.json", "empty.json", "other.bin"} {
+				for _, mt := range []string{"", "manifest.json", "free.json", "other.bin"} {
+					for li := 0; li < 2; li++ {
+						sp := &spec{Fn: fn, Target: "file", Exists: ex, FailAt: -1, AT: "application/vnd.example.thing", Backed: backing,
+							Layers: []ocispec.Descriptor{empty, other}, Ann: map[string]string{createdKey(fn): "2021-07-01T12:00:00Z"}}
+						if li == 1 {
+							sp.Layers = []ocispec.Descriptor{other}
+						}
+						if ct != "" {
+							sp.ConfigAnn = map[string]string{ocispec.AnnotationTitle: ct, "k": "v"}
+						}
+						if mt != "" {
+							sp.Ann[ocispec.AnnotationTitle] = mt
+						}
+						packCase(sp)
+						run.Count("enumerated_file_titles")
+					}
+				}
 			}
 		}
 	}
@@ -662,6 +719,7 @@ func main() {
 	}
 	enumPacks()
 	enumNonUTF8()
+	enumFileTitles()
 	genPacks()
 	genTimes()
 	genUTF8()
@@ -672,10 +730,10 @@ func main() {
 
 // floors: a run in which a stream or a branch produced nothing must not pass silently.
 func floors() {
-	want := map[string]int{"result_ok": 500, "result_injected": 100, "result_invalid-datetime": 50, "result_invalid-media-type": 50,
+	want := map[string]int{"result_ok": 500, "result_storage-error": 100, "result_invalid-datetime": 50, "result_invalid-media-type": 50,
 		"result_unsupported": 20, "result_missing-artifact-type": 20, "target_memory": 50, "target_oci": 50, "target_file": 50,
 		"target_registry": 50, "target_oci+exists": 50, "target_file+exists": 50, "target_registry+exists": 50, "copy_checked": 300,
-		"determinism_checked": 300, "registry_validating": 50, "file_named_blob": 50, "prefilled": 300, "non_utf8_input": 50,
+		"determinism_checked": 300, "registry_validating": 50, "file_named_blob": 50, "file_titled_config": 30, "file_titled_manifest": 10, "file_duplicate_name": 20, "enumerated_file_titles": 200, "prefilled": 300, "non_utf8_input": 50,
 		"enumerated": 1000, "enumerated_faults": 1000, "time_accepted": 1000, "time_rejected": 1000, "mediatype_valid": 1000,
 		"mediatype_invalid": 1000, "utf8_coerced": 500, "utf8_unchanged": 100}
 	var low []string
